@@ -309,7 +309,7 @@ def extra(uni, tier, seed):
     from pyvc.runner import Extra
     from realise import C05 as R
     out, n_ok = [], 0
-    for name, ok, detail, src in R.bounded_cases():
+    for name, ok, detail, src in R.bounded_cases(tier == "thorough"):
         if ok:
             n_ok += 1
             continue
